@@ -192,17 +192,30 @@ def behavOf (syms : List Str) : List (Nat × Nat) → Entry → Option Nat
   | [], _ => none
   | (j, k) :: rest, e => if syms[j]? = some e.callSym then some k else behavOf syms rest e
 
-/-- what a caller observes: `orig` — the method's own body ran on (recv, args); `mock k recv args` — callback `k`
-    was entered with the caller's receiver and arguments in place (C01/C15: the jump at the entry preserves all
-    argument registers and the stack); for a shape body the dictionary is the first ordinary argument. -/
-inductive Obs (R A : Type)
-  | orig (recv : R) (args : List A)
-  | mock (k : Nat) (recv : R) (args : List A)
+/-- the values in the argument positions of a call when it enters the code of `e` (ABI, observed not proved): receiver
+    first; a shape body carries the hidden dictionary directly behind the receiver -/
+def entryArgs {A : Type} (e : Entry) (dict recv : A) (args : List A) : List A :=
+  if e.shape.isEmpty then recv :: args else recv :: dict :: args
 
-def callObs {R A : Type} (syms : List Str) (s : BState) (e : Entry) (dict : A) (recv : R) (args : List A) : Obs R A :=
+/-- internal/patch/patch.go `adaptToShapeFunc` (fix 79126f8): the replacement installed at a shape body is a
+    `reflect.MakeFunc` adapter with one extra word at `dictPos`; it forwards `args[:dictPos] ++ args[dictPos+1:]` -/
+def adapt {A : Type} (dictPos : Nat) (actual : List A) : List A := actual.take dictPos ++ actual.drop (dictPos + 1)
+
+/-- what the user's callback is called with -/
+def delivered {A : Type} (e : Entry) (dict recv : A) (args : List A) : List A :=
+  if e.shape.isEmpty then entryArgs e dict recv args      -- the jump enters the callback itself (C01/C15: registers and stack kept)
+  else adapt 1 (entryArgs e dict recv args)               -- method of a generic type: dictPos = 1
+
+/-- what a caller observes: `orig` — the method's own body ran on the call's values; `mock k vs` — callback `k` was
+    called with the values `vs` -/
+inductive Obs (A : Type)
+  | orig (vs : List A)
+  | mock (k : Nat) (vs : List A)
+
+def callObs {A : Type} (syms : List Str) (s : BState) (e : Entry) (dict recv : A) (args : List A) : Obs A :=
   match behavOf syms s.patched e with
-  | none => .orig recv args
-  | some k => .mock k recv (if e.shape.isEmpty then args else dict :: args)
+  | none => .orig (recv :: args)
+  | some k => .mock k (delivered e dict recv args)
 
 /-! ## specification vocabulary (used by the theorems, not by the driver) -/
 
